@@ -521,7 +521,8 @@ class Engine:
         t = c['t']
         d = self.under(t)[1]
         if c.get('nil'):
-            return self.zero(t) if d['k'] == 'basic' else None
+            # zero-value constants: also of aggregate types (go/ssa represents T{} of a struct / array type this way)
+            return self.zero(t) if d['k'] in ('basic', 'struct', 'array') else None
         if d['k'] == 'basic':
             n = d['name']
             if 'bool' in n: return bool(c['v'])
@@ -538,7 +539,7 @@ class Engine:
             v = o.get('_v', self)
             if v is self:
                 v = self.const(o)
-                if not isinstance(v, StrV): o['_v'] = v
+                if v is None or isinstance(v, (int, bool, float)): o['_v'] = v      # aggregates are fresh per use
                 else: return v
             return v
         if k == 'free': return fr.free[o['n']]
